@@ -70,7 +70,7 @@ func runC12(args []string) error {
 	sm := newSummary("C12")
 	r := newRng(*seed)
 	distinct := distinctSet{}
-	nMini, nRich, nSnip, nMulti := 5, 6, 9, 24
+	nMini, nRich, nSnip, nMulti := 5, 5, 9, 20
 	if *tier == "thorough" {
 		nMini, nRich, nSnip, nMulti = 60, 70, 12, 300
 	}
@@ -200,8 +200,13 @@ func runC12(args []string) error {
 		seen := map[pair]int{}
 		var cases []string
 		dropped := 0
-		for pi := 0; pi < nRich; pi++ {
-			p := c12Program(rr.fork(), nSnip)
+		for pi := -1; pi < nRich; pi++ {
+			var p c12prog
+			if pi < 0 {
+				p = c12PreludeProgram(rr.fork())
+			} else {
+				p = c12Program(rr.fork(), nSnip)
+			}
 			ck, err := c12TypeCheck(p.Src, true)
 			useStd := strings.Contains(p.Src, "\"strings\"")
 			o := c12EvalInProcess(p.Src, useStd, nil, 20*time.Second)
@@ -221,10 +226,11 @@ func runC12(args []string) error {
 				sm.count("rich:snippet:" + s)
 			}
 			muts := c12Mutants(p.Src, ck)
-			if pi > 0 {
+			{
+				// the sites of the prelude are mutated in the prelude program only, the others never there
 				var keep []c12mutant
 				for _, mu := range muts {
-					if !mu.Prelude {
+					if mu.Prelude == (pi < 0) {
 						keep = append(keep, mu)
 					}
 				}
